@@ -131,7 +131,26 @@ def run(ck):
         with energy_units(u2):
             return qr.convert(x, u)
 
+    def acc_global(x, u, u2):
+        # units switched globally (no context manager), value supplied, units reset to the default, value read in a context
+        key = "energy" if int(x * 64) % 2 == 0 else "frequency"
+        try:
+            qr.set_current_units({key: u})
+            mol = Molecule([0.0, x])
+        finally:
+            qr.set_current_units()
+        if m.get_current_units("energy") != m.internal_units["energy"]:
+            raise AssertionError("set_current_units() did not reset the units: %r" % (m.get_current_units("energy"),))
+        with energy_units(u2):
+            return mol.get_energy(1)
+
+    def acc_in_current(x, u, u2):
+        from quantarhei.core.units import in_current_units
+        with energy_units(u2):
+            return in_current_units(x, u)
+
     accessors = [("Molecule.__init__/get_energy", acc_molecule), ("Molecule.set_energy/get_energy", acc_molecule_set),
+                 ("set_current_units(global)/get_energy", acc_global), ("in_current_units", acc_in_current),
                  ("Mode.__init__/get_energy", acc_mode), ("Aggregate.set/get_resonance_coupling", acc_coupling),
                  ("Hamiltonian.data", acc_hamiltonian), ("CorrelationFunction reorg", acc_reorg),
                  ("convert(to=)", acc_convert), ("convert in context", acc_convert_ctx)]
